@@ -595,6 +595,12 @@ func main() {
 			}
 		}
 	}
+	// capacity far beyond what a burst usually reaches (the framework's own default is 10^7): a
+	// submitter still blocks only when that many jobs are waiting
+	for _, q := range []int{65536, 65537, 200000} {
+		trial++
+		scenarioCapacity(cfg{2, q, 1}, trial)
+	}
 	for rep := 0; rep < run.Pick(2, 10); rep++ {
 		for _, proto := range []string{"tcp", "udp"} {
 			for _, wq := range [][2]int{{1, 1}, {1, 0}, {2, 1}, {4, 2}} {
